@@ -6,7 +6,7 @@ PROPERTY = {
                   'xdoctest.checker:_strip_exception_details',
                   'xdoctest.checker:check_exception',
                   'xdoctest.checker:extract_exc_want',
-                  'xdoctest.checker:check_output'],
+                  'xdoctest.checker:check_output', 'xdoctest.checker:check_output#relation'],
     'clauses': {
         'P': ['_strip_exception_details(msg) == S.exc_name(msg): first line only, up to the first colon, after the last dot',
               'check_exception: want without traceback shape => the live exception is re-raised, never a normal return; '
@@ -18,7 +18,7 @@ PROPERTY = {
         'B': ['extract_exc_want (the _EXCEPTION_RE regular expression) against the independent procedural definition of a traceback block on every want of up to 4 (thorough 5) lines from 12 line shapes x 2 indentations (bounded/c03_shape.py)',
               'the real parser and DocTest.run on every sequence of 1..2 (thorough 3) statement templates plus random longer ones, each run twice, against an oracle written from the property statements: executed statements and their order, verdict, recorded exception and failing part, logged output, renderable report, stdout restored, second run identical, module global untouched (bounded/run_corpus.py)'],
              'T': ['extract_exc_want / _EXCEPTION_RE (assumed contract in the proofs; regex outside the decidable fragment; cross-checked by the bounded stand-in)',
-              'check_output as the relation S.match (its own contract is C05)',
+              'check_output as the relation S.match (its own contract is C05); check_output#relation (the real function against the documented relation: it consults nothing but got, want and the leniency flags) is discharged here too, its callees normalize / _check_match through their contracts (discharged under C05)',
               'traceback.format_exception_only'],
     },
     'explanation': 'C03 at the checker level: exact characterisation of check_exception (re-raise / match / mismatch) '
